@@ -350,6 +350,45 @@ pub fn run(tier: Tier) -> i32 {
     rep.sample(json!({"doc": document(&cases[cases.len() / 7], &ms)}));
     rep.absorb("containment", st);
     rep.assume("the base of percent margins is not fixed by the statement; only enclosure is asserted for them");
+    // margin without surround / inside never reaches the output; '^' in a reference list is the document predecessor
+    let extra: Vec<(&str, &str, Option<(f64, f64, f64, f64)>)> = vec![
+        ("stray-margin", r##"<svg><rect id="x" wh="10" margin="2"/></svg>"##, Some((0., 0., 10., 10.))),
+        ("stray-margin-defaults", r##"<svg><defaults><rect margin="1"/></defaults><rect id="x" xy="20 0" wh="3"/></svg>"##, Some((20., 0., 23., 3.))),
+        ("stray-margin-circle", r##"<svg><circle id="x" cxy="5" r="5" margin="1 2"/></svg>"##, Some((0., 0., 10., 10.))),
+        ("prev-after-deferred/surround", r##"<svg><rect id="a" wh="10"/><rect id="x" surround="^ #z"/><rect id="z" xy="20" wh="3"/></svg>"##, Some((0., 0., 23., 23.))),
+        ("prev-after-deferred/inside", r##"<svg><rect id="a" wh="10"/><rect id="x" inside="^ #z"/><rect id="z" xy="2" wh="30"/></svg>"##, Some((2., 2., 10., 10.))),
+    ];
+    let st = run_space(extra.len(), |i| {
+        let (name, doc, want) = extra[i];
+        let out = run_str(doc, &Cfg::plain());
+        let mut problem = None;
+        match &out {
+            Outcome::Ok(o) => {
+                let text = String::from_utf8_lossy(o);
+                for a in [" margin=", " surround=", " inside="] {
+                    if text.contains(a) {
+                        problem = Some(format!("attribute{a} left in the output"));
+                    }
+                }
+                if let (None, Some(w)) = (&problem, want) {
+                    let got = crate::xmlref::parse_tree(o, crate::xmlref::Mode::Document).ok().and_then(|t| crate::xmlref::root(&t).and_then(|r| r.find_id("x").and_then(crate::geom::native_bbox)));
+                    match got {
+                        Some(g) if g.approx_eq(&BBox::new(w.0, w.1, w.2, w.3), 0.0011) => {}
+                        other => problem = Some(format!("expected box {w:?}, observed {other:?}")),
+                    }
+                }
+            }
+            other => problem = Some(other.brief()),
+        }
+        CaseResult {
+            case_hash: hash64(&doc),
+            nontrivial: problem.is_none(),
+            outcome_hash: hash64(&format!("{out:?}")),
+            executions: 1,
+            violation: problem.map(|p| Violation { clause: "extra".into(), signature: format!("C12/{name}"), case: json!({"input": doc, "extra": name}), detail: format!("{doc}\n{p}\n{}", clip(&out.brief(), 300)) }),
+        }
+    });
+    rep.absorb("extra", st);
     rep.finish()
 }
 
